@@ -12,6 +12,11 @@ HISTORIES = [
     (64, "all", "set a 1; set b 2; set a 3; set c 4; del b; merge; checkall; set d 5; merge; checkall"),
     (1 << 20, "all", "set a 1; set a 2; set b 3; merge; checkall; reopen; checkall"),
     (40, "dead", "set a 1; set b 2; set a 3; set c 4; set b 5; merge; checkall"),
+    # values at and above the 8 KiB write buffer (std's BufWriter hands such a slice straight to the file): as the last operation
+    # of the history, and as the entry that triggers a roll-over (the file is then closed)
+    (1 << 20, "all", "set a 1; set big %s" % ("x" * 9000)),
+    (1 << 20, "all", "set a 1; set edge %s" % ("e" * 8192)),
+    (10000, "all", "set a 1; set big %s; set b 2; del a" % ("y" * 20000)),
 ]
 _OPEN = re.compile(r'openat\([^,]+, "([^"]+\.bitcask\.(?:data|hint))", ([A-Z_|]+)[^)]*\)\s+= (\d+)')
 _WRITE = re.compile(r'(?:write|pwrite64)\((\d+),.*\)\s+= (\d+)')
